@@ -39,6 +39,11 @@ CHECKS["C13"] = ("TLC explores the transform state machine (stack, named states,
                  "named / context semantics and, on the integer sub-group, with the matrix the specification composes itself.",
                  "5 C13", "Trusted: Transform.tla's matrix algebra; 5 probe points determine the affine map; TLC.")
 
+CHECKS["C04"] = ("TLC checks C04_Words/Mentions/Bypass/Keeps as action properties of XformMoveImpl (integer sub-group maps x "
+                 "partial moves/rapids/probes x both modes) and evaluates the same clauses on every motion call of recorded real "
+                 "executions, with the map in force observed through apply_transform().",
+                 "5 C04", "Trusted: XformMove.tla arithmetic at scale 1e4; Machine.tla; float runs are judged to 1.5 output units only.")
+
 NOT_YET = {}
 
 
